@@ -171,8 +171,9 @@ GUARDS = [
         'xact._date = *range_start;']),
     (['C03', 'C04'], 'parse_strips_marks_before_conversion', 'src/amount.cc', r'bool\s+amount_t::parse\s*\(\s*std::istream&\s*in', [
         'if (last_comma != string::npos || last_period != string::npos) {',
-        'mpq_set_str(MP(new_quantity.get()), buf.get(), 10);',
-        'mpq_set_str(MP(new_quantity.get()), quant.c_str(), 10);']),
+        'while (*p) { if (*p == \',\' || *p == \'.\') { p++; continue; } *t++ = *p++; } *t = \'\\0\';',
+        'if (mpq_set_str(MP(new_quantity.get()), buf.get(), 10) != 0) throw_(amount_error, _("Invalid quantity in amount"));',
+        'if (mpq_set_str(MP(new_quantity.get()), quant.c_str(), 10) != 0) throw_(amount_error, _("Invalid quantity in amount"));']),
     (['C04', 'C08'], 'parse_teaches_style_and_precision', 'src/amount.cc', r'bool\s+amount_t::parse\s*\(\s*std::istream&\s*in', [
         'else if (commodity_ && ! no_migrate_style) { commodity().add_flags(comm_flags); if (new_quantity->prec > commodity().precision()) commodity().set_precision(new_quantity->prec); }']),
     (['C04'], 'only_format_fixes_display', 'src/textual.cc', r'void\s+instance_t::commodity_nomarket_directive\s*\(', [
